@@ -222,6 +222,16 @@ def evaluate(case, out):
                 return
         finally:
             shutil.rmtree(d, ignore_errors=True)
+        # the same rows parsed by the caller (numeric tokens as numbers) give the same records as the file does
+        try:
+            parsed = [[(int(tok) if (i >= 2 and k > len(case["contests"]) and str(tok).isdigit()) else tok) for i, tok in enumerate(row)]
+                      for k, row in enumerate(lines)]
+            cv_mem = CVR.from_raire(parsed)[0]
+            out.expect([(c.id, c.votes) for c in cv_mem] == [(c.id, c.votes) for c in cv], "records-from-parsed-rows!=records-from-the-file",
+                       lambda: ([(c.id, c.votes) for c in cv_mem][:3], [(c.id, c.votes) for c in cv][:3]))
+        except Exception as e:  # noqa
+            out.lib_exception("from_raire(parsed rows)", e)
+            return
         A = {(c.id, k): [x for x, _ in sorted(v.items(), key=lambda kv: kv[1])] for c in cv for k, v in c.votes.items()}
         B = {(bid, k): [x for x, _ in sorted(v.items(), key=lambda kv: kv[1])] for bid, vs in rc.items() for k, v in vs.items()}
         want = {}
